@@ -599,6 +599,48 @@ fn random_write_session(rng: &mut Rng, rep: &mut Report) {
         });
     }
     let default = WriteAct::Accept(1 + rng.usize(600));
+    write_session(frames, script, default, rep);
+}
+
+/// Sessions of frames that are each other's near twins — same address and type with no data / one 00 byte / one other
+/// byte / the same byte followed by more, the same data under a neighbouring address or type — written back to back in
+/// every order: whatever a write remembers of the previous frame must not leak into the next one.
+fn twin_write_sessions(rng: &mut Rng, rep: &mut Report) {
+    for (a, t, b) in [(0x0003u16, 0x04u8, 0x00u8), (0x0010, 0x00, 0x00), (0x0000, 0x00, 0x00), (0xFFFF, 0x02, 0xFF), (0x0003, 0x03, 0xA2), (0x0100, 0x01, 0x01)] {
+        let family: Vec<(u16, u8, Vec<u8>)> = vec![
+            (a, t, vec![]),
+            (a, t, vec![0x00]),
+            (a, t, vec![b]),
+            (a, t, vec![b.wrapping_add(1)]),
+            (a, t, vec![b, 0x00]),
+            (a, t, vec![b, b]),
+            (a, t, vec![b; 16]),
+            (a, t, vec![b; 17]),
+            (a, t.wrapping_add(1), vec![b]),
+            (a, t ^ 0x80, vec![b]),
+            (a.wrapping_add(1), t, vec![b]),
+            (a ^ 0x0100, t, vec![b]),
+            (a ^ 0x8000, t, vec![b]),
+            (a.rotate_left(8), t, vec![b]),
+            (u16::from(t) << 8 | u16::from(b), a as u8, vec![(a >> 8) as u8]),
+        ];
+        for i in 0..family.len() {
+            for j in 0..family.len() {
+                if i == j {
+                    continue;
+                }
+                // x, y, x again, y again: a twin directly after its twin, and after its twin's twin
+                let frames = vec![family[i].clone(), family[j].clone(), family[i].clone(), family[j].clone()];
+                let default = if (i + j) % 3 == 0 { WriteAct::Accept(1 + rng.usize(7)) } else { WriteAct::Accept(usize::MAX) };
+                write_session(frames, vec![], default, rep);
+                rep.count("twin_write_sessions");
+            }
+        }
+    }
+}
+
+fn write_session(frames: Vec<(u16, u8, Vec<u8>)>, script: Vec<WriteAct>, default: WriteAct, rep: &mut Report) {
+    let k = frames.len();
     let sig = format!("session|{}|{:?}|{:?}", frames.iter().map(|f| format!("{:04X}:{:02X}:{}", f.0, f.1, hex(&f.2))).collect::<Vec<_>>().join(","), script, default);
     rep.case(Some(fnv(sig.as_bytes())));
     rep.count("write_sessions");
@@ -712,6 +754,7 @@ pub fn run(ctx: &Ctx) -> Outcome {
             exhaustive_read(shard, rep);
         } else if shard == 3 {
             exhaustive_write(rep);
+            twin_write_sessions(&mut ctx.rng("twins", 0), rep);
             marathon(rep);
         } else {
             let mut rng = ctx.rng("rand", (shard - 4) as u64);
@@ -742,6 +785,7 @@ pub fn run(ctx: &Ctx) -> Outcome {
         floor("reads hitting end of stream", report.get("reads_hitting_end_of_stream") > 0, report.get("reads_hitting_end_of_stream")),
         floor("short writes and write interrupts observed", report.get("short_writes_observed") > 0 && report.get("write_interrupts_fired") > 0, report.get("short_writes_observed")),
         floor("several frames to one sink: complete writes, failed writes, and writes after a failed one", report.get("session_writes_ok") > 1000 && report.get("session_writes_failed") > 100 && report.get("session_writes_after_a_failed_one") > 100, format!("{} ok, {} failed, {} after a failed one", report.get("session_writes_ok"), report.get("session_writes_failed"), report.get("session_writes_after_a_failed_one"))),
+        floor("near-twin frames written back to back to one sink (no data / 00 / one byte / longer, neighbouring address or type), every ordered pair", report.get("twin_write_sessions") == 6 * 15 * 14, report.get("twin_write_sessions")),
         floor("write failures surfaced and complete writes both observed", report.get("write_failures_surfaced") > 0 && report.get("writes_ok_complete") > 0, report.get("write_failures_surfaced")),
     ];
     let sizes: Vec<J> = {
